@@ -1181,7 +1181,7 @@ def verify_function(prog: Program, reg: Registry, qualname: str, only_serves=Non
     t0 = time.time()
     try:
         fv = FunctionVerifier(prog, reg, qualname)
-        if fv.contract.bounded_only:
+        if fv.contract.bounded_only and not os.environ.get("PYVC_TRY_BOUNDED"):
             raise EngineUnsupported("proof not attempted (bounded stand-in only): " + fv.contract.bounded_only)
         rep["fingerprint"] = fv.fi.fingerprint()
         rep["vc_hash"] = fv.fi.vc_hash(prog)
